@@ -22,7 +22,7 @@
 //!              every string literal of <= 3 escape atoms;
 //!  * decl    — every alias declaration of <= Ld tokens through `AliasesMap::insert`;
 //!  * alias   — every set of <= 2 alias rules from a pool (recursive, mutually recursive,
-//!              shadowing, broken definitions) x every input of <= 3 tokens;
+//!              shadowing, broken definitions) x every input of <= 3 (thorough: 4) tokens;
 //!  * ladder  — for every recursive production a ladder of nesting depths.
 
 use std::collections::BTreeMap;
@@ -476,7 +476,8 @@ fn ladder_case(lang: Lang, production: &str, depth: usize) -> (String, Aliases) 
 }
 
 const RUNGS: &[usize] = &[
-    1, 2, 3, 4, 5, 6, 7, 8, 10, 12, 16, 32, 64, 128, 256, 512, 1024, 2048, 4096, 8192, 16384, 32768, 65536,
+    1, 2, 3, 4, 5, 6, 7, 8, 10, 12, 14, 16, 24, 32, 48, 64, 96, 128, 192, 256, 384, 512, 768, 1024, 1536, 2048,
+    3072, 4096, 6144, 8192, 12288, 16384, 24576, 32768, 49152, 65536,
 ];
 
 // ------------------------------------------------------------------------------------------
@@ -599,6 +600,21 @@ fn aliases_from(v: &Value) -> Aliases {
         .unwrap_or_default()
 }
 
+/// Per-case CPU cap inside a child that runs several cases: soft RLIMIT_CPU = CPU used so far
+/// + cap (SIGXCPU kills the process when the case exceeds it).
+fn arm_cpu_limit(cap_s: u64) {
+    // SAFETY: plain libc calls on zero-initialised structs.
+    unsafe {
+        let mut ru: libc::rusage = std::mem::zeroed();
+        libc::getrusage(libc::RUSAGE_SELF, &mut ru);
+        let used = (ru.ru_utime.tv_sec + ru.ru_stime.tv_sec) as u64 + 1;
+        let mut lim: libc::rlimit = std::mem::zeroed();
+        libc::getrlimit(libc::RLIMIT_CPU, &mut lim);
+        lim.rlim_cur = (used + cap_s).min(lim.rlim_max);
+        libc::setrlimit(libc::RLIMIT_CPU, &lim);
+    }
+}
+
 fn child_body(spec: &Value, out: &mut ChildOut) {
     let lang = Lang::from_name(spec["lang"].as_str().unwrap_or(""));
     let mode = spec["mode"].as_str().unwrap_or("");
@@ -615,7 +631,10 @@ fn child_body(spec: &Value, out: &mut ChildOut) {
             };
             let prefix: Vec<usize> = serde_json::from_value(spec["prefix"].clone()).unwrap_or_default();
             let extra = spec["extra"].as_u64().unwrap_or(0) as usize;
-            let aliases = aliases_from(&spec["aliases"]);
+            let alias_sets: Vec<Aliases> = match spec["alias_sets"].as_array() {
+                Some(sets) => sets.iter().map(aliases_from).collect(),
+                None => vec![aliases_from(&spec["aliases"])],
+            };
             if family == "decl" {
                 let mut env = Env::new(lang, &vec![]);
                 for_each_string(alphabet, &prefix, extra, |_idx, text| {
@@ -639,59 +658,69 @@ fn child_body(spec: &Value, out: &mut ChildOut) {
                     }
                 });
             } else {
-                let env = Env::new(lang, &aliases);
-                for p in &env.insert_panics {
-                    tally.panic_count += 1;
-                    tally.panics.push(json!({"lang": lang.name(), "entry": "insert", "text": "", "aliases": aliases, "message": p}));
-                }
-                let alias_names: Vec<String> = aliases
-                    .iter()
-                    .map(|(d, _)| d.split(['(', ':']).next().unwrap_or("").to_owned())
-                    .collect();
-                for_each_string(alphabet, &prefix, extra, |idx, text| {
-                    let any_ok = run_case(&env, lang, text, &aliases, &mut tally, out);
-                    let canonical = family != "chars" && greedy_tokens(alphabet, text).as_deref() == Some(idx);
-                    let nontrivial = match family {
-                        "tokens" => canonical && any_ok,
-                        "alias" => {
-                            canonical
-                                && !aliases.is_empty()
-                                && idx.iter().any(|&i| {
-                                    let t = alphabet[i].trim_end_matches(['(', ':']);
-                                    alias_names.iter().any(|n| n == t)
-                                })
-                        }
-                        _ => false,
-                    };
-                    if nontrivial {
-                        tally.nontrivial += 1;
-                        if tally.samples.len() < 2 && idx.len() >= 3 {
-                            tally.samples.push(json!({"family": family, "lang": lang.name(), "text": text, "aliases": aliases}));
-                        }
+                for aliases in &alias_sets {
+                    if out.trace {
+                        out.line(&format!("A {}", json!(aliases)));
                     }
-                });
+                    let env = Env::new(lang, aliases);
+                    for p in &env.insert_panics {
+                        tally.panic_count += 1;
+                        tally.panics.push(json!({"lang": lang.name(), "entry": "insert", "text": "", "aliases": aliases, "message": p}));
+                    }
+                    let alias_names: Vec<String> = aliases
+                        .iter()
+                        .map(|(d, _)| d.split(['(', ':']).next().unwrap_or("").to_owned())
+                        .collect();
+                    let mut set_samples = 0;
+                    for_each_string(alphabet, &prefix, extra, |idx, text| {
+                        let any_ok = run_case(&env, lang, text, aliases, &mut tally, out);
+                        let canonical = family != "chars" && greedy_tokens(alphabet, text).as_deref() == Some(idx);
+                        let nontrivial = match family {
+                            "tokens" => canonical && any_ok,
+                            "alias" => {
+                                canonical
+                                    && !aliases.is_empty()
+                                    && idx.iter().any(|&i| {
+                                        let t = alphabet[i].trim_end_matches(['(', ':']);
+                                        alias_names.iter().any(|n| n == t)
+                                    })
+                            }
+                            _ => false,
+                        };
+                        if nontrivial {
+                            tally.nontrivial += 1;
+                            if set_samples < 1 && tally.samples.len() < 2 && idx.len() >= 3 && any_ok {
+                                set_samples += 1;
+                                tally.samples.push(json!({"family": family, "lang": lang.name(), "text": text, "aliases": aliases}));
+                            }
+                        }
+                    });
+                }
             }
         }
         "guided" => {
             let group = spec["group"].as_str().unwrap_or("");
             let index = spec["index"].as_u64().unwrap_or(0) as usize;
+            let indices: Vec<usize> = serde_json::from_value(spec["indices"].clone()).unwrap_or_default();
             let env = Env::new(lang, &vec![]);
             let none = vec![];
             match (lang, group) {
                 (Lang::Revset, "functions") => {
-                    let name = REVSET_FUNCTIONS[index];
-                    let in_token_alphabet = token_alphabet(lang).contains(&name);
-                    for_each_string(REVSET_ARGS, &[], 2, |idx, _| {
-                        let args: Vec<&str> = idx.iter().map(|&i| REVSET_ARGS[i]).collect();
-                        let text = format!("{name}({})", args.join(", "));
-                        let any_ok = run_case(&env, lang, &text, &none, &mut tally, out);
-                        if any_ok && !in_token_alphabet {
-                            tally.nontrivial += 1;
-                            if tally.samples.is_empty() && idx.len() == 2 {
-                                tally.samples.push(json!({"family": "guided", "lang": "revset", "text": text}));
+                    for &index in &indices {
+                        let name = REVSET_FUNCTIONS[index];
+                        let in_token_alphabet = token_alphabet(lang).contains(&name);
+                        for_each_string(REVSET_ARGS, &[], 2, |idx, _| {
+                            let args: Vec<&str> = idx.iter().map(|&i| REVSET_ARGS[i]).collect();
+                            let text = format!("{name}({})", args.join(", "));
+                            let any_ok = run_case(&env, lang, &text, &none, &mut tally, out);
+                            if any_ok && !in_token_alphabet {
+                                tally.nontrivial += 1;
+                                if tally.samples.is_empty() && idx.len() == 2 {
+                                    tally.samples.push(json!({"family": "guided", "lang": "revset", "text": text}));
+                                }
                             }
-                        }
-                    });
+                        });
+                    }
                 }
                 (Lang::Fileset, "patterns") => {
                     let kind = FILESET_KINDS[index];
@@ -724,35 +753,43 @@ fn child_body(spec: &Value, out: &mut ChildOut) {
             }
         }
         "single" => {
-            let (text, aliases) = match spec["text"].as_str() {
-                Some(t) => (t.to_owned(), aliases_from(&spec["aliases"])),
-                None => ladder_case(
-                    lang,
-                    spec["production"].as_str().unwrap_or(""),
-                    spec["depth"].as_u64().unwrap_or(0) as usize,
-                ),
+            // one literal input, or a list of ladder depths of one production (ascending)
+            let production = spec["production"].as_str().unwrap_or("");
+            let depths: Vec<usize> = match spec["depths"].as_array() {
+                Some(a) => a.iter().filter_map(|d| d.as_u64().map(|d| d as usize)).collect(),
+                None => vec![spec["depth"].as_u64().unwrap_or(0) as usize],
             };
-            let env = Env::new(lang, &aliases);
-            for p in &env.insert_panics {
-                out.line(&format!("D insert panic {}", Value::String(p.clone())));
-            }
+            let case_cap_s = spec["case_cap_s"].as_u64().unwrap_or(30);
             let entries: Vec<String> = match spec["entries"].as_array() {
                 Some(a) if !a.is_empty() => a.iter().filter_map(|e| e.as_str().map(str::to_owned)).collect(),
                 _ => lang.entries().iter().map(|s| s.to_string()).collect(),
             };
-            for entry in &entries {
-                out.line(&format!("S {entry}"));
-                let t0 = Instant::now();
-                let o = run_entry(&env, lang, entry, &text, true);
-                let ms = t0.elapsed().as_millis();
-                match o {
-                    Outcome::Ok => out.line(&format!("D {entry} ok {ms}")),
-                    Outcome::Err(_) => out.line(&format!("D {entry} err {ms}")),
-                    Outcome::Panic(m) => out.line(&format!("D {entry} panic {}", Value::String(m))),
+            for depth in depths {
+                let (text, aliases) = match spec["text"].as_str() {
+                    Some(t) => (t.to_owned(), aliases_from(&spec["aliases"])),
+                    None => ladder_case(lang, production, depth),
+                };
+                arm_cpu_limit(case_cap_s);
+                out.line(&format!("G {depth}"));
+                let env = Env::new(lang, &aliases);
+                for p in &env.insert_panics {
+                    out.line(&format!("D insert panic {}", Value::String(p.clone())));
                 }
+                for entry in &entries {
+                    out.line(&format!("S {entry}"));
+                    let t0 = Instant::now();
+                    let o = run_entry(&env, lang, entry, &text, true);
+                    let ms = t0.elapsed().as_millis();
+                    match o {
+                        Outcome::Ok => out.line(&format!("D {entry} ok {ms}")),
+                        Outcome::Err(_) => out.line(&format!("D {entry} err {ms}")),
+                        Outcome::Panic(m) => out.line(&format!("D {entry} panic {}", Value::String(m))),
+                    }
+                }
+                out.line(&format!("E {depth}"));
+                // Dropping a deep alias map / environment is not part of the parse.
+                std::mem::forget(env);
             }
-            // Dropping a deep alias map / environment is not part of the parse.
-            std::mem::forget(env);
         }
         other => vcommon::machinery_failure(&format!("unknown child mode {other:?}")),
     }
@@ -803,7 +840,13 @@ struct ChildRun {
 static CHILD_SEQ: AtomicU64 = AtomicU64::new(0);
 static CHILDREN: AtomicU64 = AtomicU64::new(0);
 
-fn run_child(scratch: &Path, mut spec: Value, cpu_cap_s: u64) -> ChildRun {
+/// `cases`: number of separately capped cases the child runs (1 for an enumeration shard, whose
+/// cap covers the whole shard; n for a ladder child, which re-arms its own soft CPU limit before
+/// every case and is watched for *progress* instead of total wall time).
+fn run_child(scratch: &Path, mut spec: Value, cpu_cap_s: u64, cases: u64) -> ChildRun {
+    let per_case = cases > 1 || spec["mode"] == "single";
+    let hard_cpu_s = if per_case { cpu_cap_s * cases + 60 } else { cpu_cap_s + 2 };
+    let soft_cpu_s = if per_case { hard_cpu_s } else { cpu_cap_s };
     let seq = CHILD_SEQ.fetch_add(1, Ordering::Relaxed);
     CHILDREN.fetch_add(1, Ordering::Relaxed);
     let spec_path = scratch.join(format!("{seq}.spec.json"));
@@ -820,7 +863,7 @@ fn run_child(scratch: &Path, mut spec: Value, cpu_cap_s: u64) -> ChildRun {
     // SAFETY: only async-signal-safe calls (setrlimit) between fork and exec.
     unsafe {
         cmd.pre_exec(move || {
-            let cpu = libc::rlimit { rlim_cur: cpu_cap_s, rlim_max: cpu_cap_s + 2 };
+            let cpu = libc::rlimit { rlim_cur: soft_cpu_s, rlim_max: hard_cpu_s };
             libc::setrlimit(libc::RLIMIT_CPU, &cpu);
             let mem = libc::rlimit { rlim_cur: ADDRESS_SPACE_CAP, rlim_max: ADDRESS_SPACE_CAP };
             libc::setrlimit(libc::RLIMIT_AS, &mem);
@@ -833,11 +876,21 @@ fn run_child(scratch: &Path, mut spec: Value, cpu_cap_s: u64) -> ChildRun {
     let mut child = cmd.spawn().unwrap_or_else(|e| vcommon::machinery_failure(&format!("cannot spawn child: {e}")));
     let wall_cap = Duration::from_secs(cpu_cap_s * 3 + 20);
     let mut killed_by_watchdog = false;
+    let mut last_progress = Instant::now();
+    let mut last_len = 0u64;
     let status = loop {
         match child.try_wait() {
             Ok(Some(st)) => break st,
             Ok(None) => {
-                if t0.elapsed() > wall_cap {
+                if per_case {
+                    let len = std::fs::metadata(&out_path).map(|m| m.len()).unwrap_or(0);
+                    if len != last_len {
+                        last_len = len;
+                        last_progress = Instant::now();
+                    }
+                }
+                let waited = if per_case { last_progress.elapsed() } else { t0.elapsed() };
+                if waited > wall_cap {
                     let _ = child.kill();
                     killed_by_watchdog = true;
                     break child.wait().unwrap_or_else(|e| vcommon::machinery_failure(&format!("wait: {e}")));
@@ -893,34 +946,50 @@ fn result_of(run: &ChildRun) -> Value {
         .unwrap_or(Value::Null)
 }
 
-/// Outcome of one single-input child (ladder rung, replay).
+/// Outcome of one `single` child (ladder rungs of one production in ascending order, or one
+/// literal input for a replay).
 #[derive(Debug, Clone)]
 struct SingleResult {
     exit: Exit,
-    /// entry in progress when the child died (or None)
-    in_progress: Option<String>,
-    /// (entry, "ok"|"err"|"panic", detail)
-    done: Vec<(String, String, String)>,
+    /// depths whose entries all returned
+    completed: Vec<usize>,
+    /// depth and entry in progress when the child died
+    in_progress_depth: Option<usize>,
+    in_progress_entry: Option<String>,
+    /// (depth, entry, "ok"|"err"|"panic", detail)
+    done: Vec<(usize, String, String, String)>,
     wall_ms: u128,
 }
 
 fn run_single(scratch: &Path, spec: Value, cpu_cap_s: u64) -> SingleResult {
-    let run = run_child(scratch, spec, cpu_cap_s);
-    let mut in_progress = None;
+    let cases = spec["depths"].as_array().map(|a| a.len() as u64).unwrap_or(1).max(1);
+    let run = run_child(scratch, spec, cpu_cap_s, cases);
+    let mut completed = vec![];
+    let mut in_progress_depth = None;
+    let mut in_progress_entry = None;
     let mut done = vec![];
     for l in &run.lines {
-        if let Some(e) = l.strip_prefix("S ") {
-            in_progress = Some(e.to_owned());
+        if let Some(d) = l.strip_prefix("G ") {
+            in_progress_depth = d.parse::<usize>().ok();
+            in_progress_entry = None;
+        } else if let Some(d) = l.strip_prefix("E ") {
+            if let Ok(d) = d.parse::<usize>() {
+                completed.push(d);
+            }
+            in_progress_depth = None;
+            in_progress_entry = None;
+        } else if let Some(e) = l.strip_prefix("S ") {
+            in_progress_entry = Some(e.to_owned());
         } else if let Some(rest) = l.strip_prefix("D ") {
             let mut it = rest.splitn(3, ' ');
             let e = it.next().unwrap_or("").to_owned();
             let kind = it.next().unwrap_or("").to_owned();
             let detail = it.next().unwrap_or("").to_owned();
-            done.push((e, kind, detail));
-            in_progress = None;
+            done.push((in_progress_depth.unwrap_or(0), e, kind, detail));
+            in_progress_entry = None;
         }
     }
-    SingleResult { exit: run.exit, in_progress, done, wall_ms: run.wall_ms }
+    SingleResult { exit: run.exit, completed, in_progress_depth, in_progress_entry, done, wall_ms: run.wall_ms }
 }
 
 fn crash_kind(exit: &Exit) -> Option<&'static str> {
@@ -1002,7 +1071,7 @@ impl Shared<'_> {
 /// to find the input that was being parsed.
 fn run_shard(sh: &Shared, key: &str, spec: Value, cpu_cap_s: u64) {
     let scratch = sh.ctx.scratch();
-    let run = run_child(scratch, spec.clone(), cpu_cap_s);
+    let run = run_child(scratch, spec.clone(), cpu_cap_s, 1);
     *sh.child_ms.lock().unwrap().entry(key.to_owned()).or_default() += run.wall_ms as u64;
     match &run.exit {
         Exit::Clean => sh.add_tally(key, &result_of(&run)),
@@ -1012,16 +1081,22 @@ fn run_shard(sh: &Shared, key: &str, spec: Value, cpu_cap_s: u64) {
         Exit::StackOverflow | Exit::Crash(_) => {
             let mut traced = spec.clone();
             traced["trace"] = json!(true);
-            let rerun = run_child(scratch, traced, cpu_cap_s);
+            let rerun = run_child(scratch, traced, cpu_cap_s, 1);
             let last: Option<String> = rerun
                 .lines
                 .iter()
                 .rev()
                 .find_map(|l| l.strip_prefix("T ").and_then(|j| serde_json::from_str::<String>(j).ok()));
+            let aliases: Value = rerun
+                .lines
+                .iter()
+                .rev()
+                .find_map(|l| l.strip_prefix("A ").and_then(|j| serde_json::from_str::<Value>(j).ok()))
+                .unwrap_or_else(|| if spec["aliases"].is_array() { spec["aliases"].clone() } else { json!([]) });
             let lang = spec["lang"].as_str().unwrap_or("?");
             let kind = crash_kind(&rerun.exit).or(crash_kind(&run.exit)).unwrap_or("crash");
             let family = spec["family"].as_str().or(spec["group"].as_str()).unwrap_or("?");
-            let production = if spec["aliases"].as_array().is_some_and(|a| !a.is_empty()) {
+            let production = if aliases.as_array().is_some_and(|a| !a.is_empty()) {
                 "alias-expansion"
             } else {
                 family
@@ -1030,10 +1105,10 @@ fn run_shard(sh: &Shared, key: &str, spec: Value, cpu_cap_s: u64) {
                 (Some(text), Some(_)) => sh.ctx.violation(
                     &format!("C36/{lang}/{production}/{kind}"),
                     format!(
-                        "{lang}: the child process died ({:?}) while parsing {text:?} with aliases {}",
-                        rerun.exit, spec["aliases"]
+                        "{lang}: the child process died ({:?}) while parsing {text:?} with aliases {aliases}",
+                        rerun.exit
                     ),
-                    json!({"lang": lang, "text": text, "aliases": spec["aliases"], "family": family}),
+                    json!({"lang": lang, "text": text, "aliases": aliases, "family": family}),
                 ),
                 _ => vcommon::machinery_failure(&format!(
                     "shard {spec} died ({:?}) but the traced re-run did not reproduce it ({:?})",
@@ -1060,7 +1135,10 @@ struct LadderReport {
 
 fn run_ladder(sh: &Shared, lang: Lang, production: &str, rungs: &[usize], cpu_cap_s: u64) -> LadderReport {
     let scratch = sh.ctx.scratch();
-    let spec_for = |depth: usize| json!({"mode": "single", "lang": lang.name(), "production": production, "depth": depth});
+    let spec_for = |depths: &[usize]| {
+        json!({"mode": "single", "lang": lang.name(), "production": production, "depths": depths, "case_cap_s": cpu_cap_s})
+    };
+    let key = format!("{}/ladder/{production}", lang.name());
     let mut rep = LadderReport {
         lang,
         production: production.to_owned(),
@@ -1073,95 +1151,100 @@ fn run_ladder(sh: &Shared, lang: Lang, production: &str, rungs: &[usize], cpu_ca
         capped_at: None,
         not_run: vec![],
     };
-    for (i, &depth) in rungs.iter().enumerate() {
-        let r = run_single(scratch, spec_for(depth), cpu_cap_s);
-        *sh.child_ms.lock().unwrap().entry(format!("{}/ladder/{production}", lang.name())).or_default() += r.wall_ms as u64;
-        rep.rungs_run.push(depth);
-        sh.cases.fetch_add(1, Ordering::Relaxed);
-        sh.evals.fetch_add(r.done.len() as u64 + r.in_progress.is_some() as u64, Ordering::Relaxed);
-        for (entry, kind, detail) in &r.done {
-            if kind == "panic" {
-                let msg: String = serde_json::from_str(detail).unwrap_or_else(|_| detail.clone());
-                let (text, aliases) = ladder_case(lang, production, depth);
-                let mut p = json!({"lang": lang.name(), "entry": entry, "message": msg, "aliases": aliases});
-                p["text"] = if text.len() <= 20000 { json!(text) } else { Value::Null };
-                if text.len() <= 20000 {
-                    sh.report_panic(&p);
-                } else {
-                    sh.ctx.violation(
-                        &format!("C36/{}/{production}/panic", lang.name()),
-                        format!("{} {entry} panicked at depth {depth} of {production}: {msg}", lang.name()),
-                        json!({"lang": lang.name(), "production": production, "depth": depth, "entries": [entry]}),
-                    );
-                }
-                sh.panics.fetch_add(1, Ordering::Relaxed);
+    // All rungs in one child, in ascending order; the child dies at the first rung that
+    // overflows or hits the per-case cap, and larger rungs are not attempted after that.
+    let r = run_single(scratch, spec_for(rungs), cpu_cap_s);
+    *sh.child_ms.lock().unwrap().entry(key.clone()).or_default() += r.wall_ms as u64;
+    sh.cases.fetch_add((r.completed.len() + r.in_progress_depth.is_some() as usize) as u64, Ordering::Relaxed);
+    sh.evals.fetch_add(r.done.len() as u64 + r.in_progress_entry.is_some() as u64, Ordering::Relaxed);
+    rep.rungs_run = r.completed.clone();
+    rep.rungs_run.extend(r.in_progress_depth);
+    rep.largest_completed = r.completed.iter().copied().max().unwrap_or(0);
+    sh.nontrivial.fetch_add(r.completed.iter().filter(|&&d| d >= 16).count() as u64, Ordering::Relaxed);
+    for (depth, entry, kind, detail) in &r.done {
+        if kind == "panic" {
+            let msg: String = serde_json::from_str(detail).unwrap_or_else(|_| detail.clone());
+            let (text, aliases) = ladder_case(lang, production, *depth);
+            sh.panics.fetch_add(1, Ordering::Relaxed);
+            if text.len() <= 20000 && aliases.len() <= 300 {
+                sh.report_panic(&json!({"lang": lang.name(), "entry": entry, "message": msg, "aliases": aliases, "text": text}));
+            } else {
+                sh.ctx.violation(
+                    &format!("C36/{}/{production}/panic", lang.name()),
+                    format!("{} {entry} panicked at depth {depth} of {production}: {msg}", lang.name()),
+                    json!({"lang": lang.name(), "production": production, "depth": depth, "entries": [entry]}),
+                );
             }
         }
-        match &r.exit {
-            Exit::Clean => {
-                rep.largest_completed = depth;
-                if depth >= 16 {
-                    sh.nontrivial.fetch_add(1, Ordering::Relaxed);
-                }
+    }
+    let not_run = |failed: usize| -> Vec<usize> { rungs.iter().copied().filter(|&d| d > failed).collect() };
+    match &r.exit {
+        Exit::Clean => {
+            if r.completed.len() != rungs.len() {
+                vcommon::machinery_failure(&format!("ladder {key}: clean exit but only {:?} completed", r.completed));
             }
-            Exit::Capped(why) => {
-                rep.capped_at = Some(depth);
-                rep.not_run = rungs[i + 1..].to_vec();
-                sh.capped.lock().unwrap().push(json!({
-                    "lang": lang.name(), "production": production, "depth": depth,
-                    "entry": r.in_progress, "cap": why, "wall_ms": r.wall_ms as u64,
-                    "larger_rungs_not_run": rep.not_run,
-                }));
-                break;
-            }
-            Exit::StackOverflow | Exit::Crash(_) => {
-                let kind = crash_kind(&r.exit).unwrap();
-                rep.first_failing_rung = Some(depth);
-                rep.failing_entry = r.in_progress.clone();
-                rep.failure = Some(format!("{:?}", r.exit));
-                rep.not_run = rungs[i + 1..].to_vec();
-                // smallest failing depth by bisection between the last completed rung and this one
-                let mut lo = rep.largest_completed;
-                let mut hi = depth;
-                let mut exact = true;
-                while hi - lo > 1 {
-                    let mid = lo + (hi - lo) / 2;
-                    let m = run_single(scratch, spec_for(mid), cpu_cap_s);
-                    match m.exit {
-                        Exit::Clean => lo = mid,
-                        Exit::StackOverflow | Exit::Crash(_) => hi = mid,
-                        Exit::Capped(_) => {
-                            exact = false;
-                            break;
-                        }
+        }
+        Exit::Capped(why) => {
+            let depth = r.in_progress_depth.unwrap_or(0);
+            rep.capped_at = Some(depth);
+            rep.not_run = not_run(depth);
+            sh.capped.lock().unwrap().push(json!({
+                "lang": lang.name(), "production": production, "depth": depth,
+                "entry": r.in_progress_entry, "cap": why, "wall_ms": r.wall_ms as u64,
+                "largest_completed_depth": rep.largest_completed,
+                "larger_rungs_not_run": rep.not_run,
+            }));
+        }
+        Exit::StackOverflow | Exit::Crash(_) => {
+            let kind = crash_kind(&r.exit).unwrap();
+            let Some(depth) = r.in_progress_depth else {
+                vcommon::machinery_failure(&format!("ladder {key}: child died ({:?}) outside any rung", r.exit));
+            };
+            rep.first_failing_rung = Some(depth);
+            rep.failing_entry = r.in_progress_entry.clone();
+            rep.failure = Some(format!("{:?}", r.exit));
+            rep.not_run = not_run(depth);
+            // smallest failing depth by bisection between the last completed rung and this one
+            let mut lo = rep.largest_completed;
+            let mut hi = depth;
+            let mut exact = true;
+            while hi - lo > 1 {
+                let mid = lo + (hi - lo) / 2;
+                let m = run_single(scratch, spec_for(&[mid]), cpu_cap_s);
+                *sh.child_ms.lock().unwrap().entry(key.clone()).or_default() += m.wall_ms as u64;
+                match m.exit {
+                    Exit::Clean => lo = mid,
+                    Exit::StackOverflow | Exit::Crash(_) => hi = mid,
+                    Exit::Capped(_) => {
+                        exact = false;
+                        break;
                     }
                 }
-                rep.smallest_failing_depth = Some(hi);
-                let (text, aliases) = ladder_case(lang, production, depth);
-                let mut case = json!({
-                    "lang": lang.name(), "production": production, "depth": depth,
-                    "smallest_failing_depth": hi, "bisection_exact": exact,
-                    "largest_passing_depth": lo, "stack_bytes": STACK_BYTES,
-                });
-                if text.len() <= 20000 && aliases.len() <= 300 {
-                    case["text"] = json!(text);
-                    case["aliases"] = json!(aliases);
-                }
-                sh.ctx.violation(
-                    &format!("C36/{}/{production}/{kind}", lang.name()),
-                    format!(
-                        "{} {}: nesting depth {depth} of production {production} kills the process ({:?}) on a \
-                         {} MiB stack; smallest failing depth {hi} (largest passing {lo}); input {:?}…",
-                        lang.name(),
-                        r.in_progress.as_deref().unwrap_or("?"),
-                        r.exit,
-                        STACK_BYTES >> 20,
-                        text.chars().take(24).collect::<String>()
-                    ),
-                    case,
-                );
-                break;
             }
+            rep.smallest_failing_depth = Some(hi);
+            let (text, aliases) = ladder_case(lang, production, depth);
+            let mut case = json!({
+                "lang": lang.name(), "production": production, "depth": depth,
+                "smallest_failing_depth": hi, "bisection_exact": exact,
+                "largest_passing_depth": lo, "stack_bytes": STACK_BYTES,
+            });
+            if text.len() <= 20000 && aliases.len() <= 300 {
+                case["text"] = json!(text);
+                case["aliases"] = json!(aliases);
+            }
+            sh.ctx.violation(
+                &format!("C36/{}/{production}/{kind}", lang.name()),
+                format!(
+                    "{} {}: nesting depth {depth} of production {production} kills the process ({:?}) on a \
+                     {} MiB stack; smallest failing depth {hi} (largest passing {lo}); input {:?}…",
+                    lang.name(),
+                    r.in_progress_entry.as_deref().unwrap_or("?"),
+                    r.exit,
+                    STACK_BYTES >> 20,
+                    text.chars().take(24).collect::<String>()
+                ),
+                case,
+            );
         }
     }
     rep
@@ -1180,9 +1263,10 @@ fn replay(ctx: &Ctx, case: &Value, cpu_cap_s: u64) {
     if case["entries"].is_array() {
         spec["entries"] = case["entries"].clone();
     }
+    spec["case_cap_s"] = json!(cpu_cap_s);
     let r = run_single(ctx.scratch(), spec, cpu_cap_s);
     let label = case["production"].as_str().or(case["family"].as_str()).unwrap_or("input");
-    for (entry, kind, detail) in &r.done {
+    for (_depth, entry, kind, detail) in &r.done {
         if kind == "panic" {
             let msg: String = serde_json::from_str(detail).unwrap_or_else(|_| detail.clone());
             let loc = msg.rsplit(" @ ").next().unwrap_or("");
@@ -1205,7 +1289,7 @@ fn replay(ctx: &Ctx, case: &Value, cpu_cap_s: u64) {
             };
             ctx.violation(
                 &format!("C36/{lang}/{production}/{kind}"),
-                format!("replay: the process died ({e:?}) in entry {:?}", r.in_progress),
+                format!("replay: the process died ({e:?}) in entry {:?}", r.in_progress_entry),
                 case.clone(),
             );
         }
@@ -1228,7 +1312,8 @@ fn main() {
     let token_len: usize = ctx.pick(4, 5);
     let char_len: usize = ctx.pick(4, 6);
     let decl_len: usize = ctx.pick(4, 6);
-    let alias_input_len: usize = 3;
+    let alias_input_len: usize = ctx.pick(3, 4);
+    let alias_sets_per_child: usize = ctx.pick(8, 2);
     let max_rung: usize = ctx.pick(4096, 65536);
     let rungs: Vec<usize> = RUNGS.iter().copied().filter(|&r| r <= max_rung).collect();
 
@@ -1299,11 +1384,14 @@ fn main() {
         push_enum(&mut jobs, lang, "chars", CHAR_ALPHABET.len(), char_len, &none, format!("{}/chars", lang.name()));
         push_enum(&mut jobs, lang, "decl", DECL_ALPHABET.len(), decl_len, &none, format!("{}/decl", lang.name()));
         let pool = alias_pool(lang);
-        for set in alias_sets(lang) {
-            let aliases: Aliases = set.iter().map(|&i| (pool[i].0.to_owned(), pool[i].1.to_owned())).collect();
+        let sets: Vec<Aliases> = alias_sets(lang)
+            .iter()
+            .map(|set| set.iter().map(|&i| (pool[i].0.to_owned(), pool[i].1.to_owned())).collect())
+            .collect();
+        for chunk in sets.chunks(alias_sets_per_child) {
             jobs.push(Job::Shard {
                 key: format!("{}/alias", lang.name()),
-                spec: json!({"mode": "enum", "lang": lang.name(), "family": "alias", "prefix": [], "extra": alias_input_len, "aliases": aliases}),
+                spec: json!({"mode": "enum", "lang": lang.name(), "family": "alias", "prefix": [], "extra": alias_input_len, "alias_sets": chunk}),
             });
         }
         jobs.push(Job::Shard {
@@ -1311,10 +1399,10 @@ fn main() {
             spec: json!({"mode": "guided", "lang": lang.name(), "group": "escapes", "index": 0}),
         });
     }
-    for i in 0..REVSET_FUNCTIONS.len() {
+    for chunk in (0..REVSET_FUNCTIONS.len()).collect::<Vec<_>>().chunks(6) {
         jobs.push(Job::Shard {
             key: "revset/functions".into(),
-            spec: json!({"mode": "guided", "lang": "revset", "group": "functions", "index": i}),
+            spec: json!({"mode": "guided", "lang": "revset", "group": "functions", "indices": chunk}),
         });
     }
     for i in 0..FILESET_KINDS.len() {
